@@ -147,19 +147,19 @@ private theorem describes_mk (env : AEnv) (b0 b : Dict) (h : EnvSound env b0 b) 
       simp only [Option.map_some, Option.some.injEq] at he ⊢
       exact subst_sound env b0 b h x' e he
 
-/-- **Soundness of the symbolic rules.** -/
-theorem absWire_sound (sigs : List Sig) (cls : String) :
+/-- **Soundness of the symbolic rules**, for any table of method bodies (`bodyOf`, `genBody`). -/
+theorem absWireB_sound (body : String → String → List Op) (sigs : List Sig) (cls : String) :
     ∀ (fuel : Nat) (m : String) (env : AEnv) (b0 b : Dict) (stack : List Dict),
-    EnvSound env b0 b → ∀ pt ∈ wire sigs cls fuel m b stack,
-      ∃ ap ∈ absWire sigs cls fuel m env, ap.Describes b0 pt := by
+    EnvSound env b0 b → ∀ pt ∈ wireB body sigs cls fuel m b stack,
+      ∃ ap ∈ absWireB body sigs cls fuel m env, ap.Describes b0 pt := by
   intro fuel
   induction fuel with
-  | zero => intro m env b0 b stack _ pt hpt; simp [wire] at hpt
+  | zero => intro m env b0 b stack _ pt hpt; simp [wireB] at hpt
   | succ fuel ih =>
     intro m env b0 b stack h pt hpt
-    simp only [wire, List.mem_flatMap] at hpt
+    simp only [wireB, List.mem_flatMap] at hpt
     obtain ⟨op, hop, hpt⟩ := hpt
-    simp only [absWire, List.mem_flatMap]
+    simp only [absWireB, List.mem_flatMap]
     cases op with
     | scp x y p app =>
       simp only [List.mem_singleton] at hpt
@@ -173,6 +173,10 @@ theorem absWire_sound (sigs : List Sig) (cls : String) :
       simp only [List.mem_singleton] at hpt
       subst hpt
       exact ⟨_, ⟨_, hop, List.mem_singleton.mpr rfl⟩, describes_mk env b0 b h .bmp c f bd mk⟩
+    | unknown w =>
+      simp only [List.mem_singleton] at hpt
+      subst hpt
+      refine ⟨_, ⟨_, hop, List.mem_singleton.mpr rfl⟩, rfl, ?_, ?_, ?_, ?_, ?_⟩ <;> simp
     | call m' pos kw =>
       simp only [List.length_map] at hpt
       cases hf : findSig sigs cls m' with
@@ -190,5 +194,12 @@ theorem absWire_sound (sigs : List Sig) (cls : String) :
             obtain ⟨ap, hap, hd⟩ := ih m' (absEnv s env pos kw) b0 b' stack
               (absEnv_sound s env b0 b stack pos kw nk b' h hr hb) pt hpt
             exact ⟨ap, ⟨_, hop, by simp only [hf]; exact hap⟩, hd⟩
+
+/-- the hand-written transcription's instance -/
+theorem absWire_sound (sigs : List Sig) (cls : String) :
+    ∀ (fuel : Nat) (m : String) (env : AEnv) (b0 b : Dict) (stack : List Dict),
+    EnvSound env b0 b → ∀ pt ∈ wire sigs cls fuel m b stack,
+      ∃ ap ∈ absWire sigs cls fuel m env, ap.Describes b0 pt :=
+  absWireB_sound bodyOf sigs cls
 
 end Rig.C18
